@@ -107,3 +107,57 @@ def check_jump(vc):
         vc.ensure('rejected: time unchanged', t_new == t)
         vc.ensure('rejected: state unchanged', x_out is x)
         vc.canary('canary: rejected path is reachable', z3.BoolVal(False))
+
+
+# ---------------------------------------------------------------------------------------------
+# class invariant of the limits list: one (lower, upper) pair per STATE, default (0, None)
+
+def make_limits(label, decls, expand):
+    """decls: the `state` constructor argument; expand: name -> number of states a declaration string expands to (range-style names)"""
+    @contract('C11/state-limits/' + label, ['C11'], 'pygom.model.base_ode_model:BaseOdeModel._add_list_attr_with_limits',
+              also=['pygom.model.base_ode_model:BaseOdeModel.state_list.setter', 'pygom.model.base_ode_model:BaseOdeModel._addStateSymbol'])
+    def limits(vc):
+        from contracts.c08 import Ghost, GhostList, GhostDict, OpaqueSymbol
+        from pyvc.values import ObjVal, Builtin
+        ghost = Ghost()
+        cls = vc.cls('pygom.model.base_ode_model:BaseOdeModel')
+        can = vc.call(vc.cls('pygom.model.simulate:HasNewTransition')).value
+        obj = ObjVal(cls, {'_stateList': GhostList(ghost, '_stateList'), '_paramList': GhostList(ghost, '_paramList'), '_stateDict': GhostDict(ghost, '_stateDict'),
+                           '_paramDict': GhostDict(ghost, '_paramDict'), '_vectorStateDict': GhostDict(ghost, '_vectorStateDict'), '_hasNewTransition': can})
+
+        def add_symbol(it, a, k):
+            name = a[1]
+            n = expand.get(name, 1)
+            if n == 1:
+                return OpaqueSymbol(symbol=name)
+            return [OpaqueSymbol(symbol='%s_%d' % (name, j)) for j in range(n)]       # a range-style declaration: several symbols
+        vc.summary('pygom.model.base_ode_model:BaseOdeModel._addSymbol', add_symbol)
+        from pyvc.values import TypeTag
+        vc.it.builtins_env.vars['str'] = TypeTag('str', ctor=lambda it, a, k: a[0].labels['symbol'] if isinstance(a[0], OpaqueSymbol) else (a[0] if isinstance(a[0], str) else '<str>'))
+        out = vc.call(vc.func('pygom.model.base_ode_model:BaseOdeModel._add_list_attr_with_limits'), obj, decls, 'state_list')
+        vc.ensure('accepted', out.returned)
+        if not out.returned:
+            return
+        lims = obj.fields.get('_state_lims')
+        states = obj.fields['_stateList'].items
+        want = []
+        entries = decls if isinstance(decls, list) else [s for s in decls.replace(',', ' ').split() if s]
+        for d in entries:
+            name, lim = (d[0], d[1]) if isinstance(d, tuple) else (d, (0, None))
+            want += [lim] * expand.get(name, 1)
+        vc.ensure('one state per declared name (range-style names expand)', len(states) == len(want))
+        vc.ensure('one limit pair per STATE', isinstance(lims, list) and len(lims) == len(states))
+        vc.ensure('state i carries the limits of the declaration it came from, (0, None) when none were declared', lims == want)
+        # states added later through the setter get the default pair
+        out2 = vc.call(vc.func('pygom.model.base_ode_model:BaseOdeModel.state_list.setter'), obj, ['Znew'])
+        lims2 = obj.fields.get('_state_lims')
+        vc.ensure('a state added later gets the default pair', out2.returned and lims2 == want + [(0, None)] and len(obj.fields['_stateList'].items) == len(want) + 1)
+        vc.canary('canary: reachable', z3.BoolVal(False))
+    limits.__doc__ = "_add_list_attr_with_limits (%s): len(_state_lims) = number of states, entry i is the declared pair of state i" % label
+    return limits
+
+
+make_limits('plain names', ['S', 'I', 'R'], {})
+make_limits('declared pairs', [('S', (0, 50)), 'I', ('R', (None, 10)), ('V', (None, None))], {})
+make_limits('range-style name', ['y1:4'], {'y1:4': 3})
+make_limits('range-style name with limits between plain names', ['A', ('y1:3', (1, 9)), 'B', 'z0:2'], {'y1:3': 2, 'z0:2': 2})
